@@ -1,7 +1,141 @@
-From Coq Require Import List ZArith.
+(* C02 — Outgoing calls reach the wire intact, in order, exactly once or not at all.
+   Property theorems only: each is closed by `exact` of a lemma proved in C02/Proofs.v.
+   Vocabulary (C02/Model.v): run_trace silent s evs = (final state, [(event, outputs of that event)]);
+   CURRENT_SILENT = false is the code with docs/fixes/C02_out_overflow_reported.diff applied, `true` the code before it.
+   accepted tr = the calls that returned a non-zero id (with that id), in issue order; stream = concatenation of their frames;
+   wire_of o = the bytes espconn_sent took with result 0, in order; clean o = no HardErr, SendBufExceeded or Restart in o. *)
+From Coq Require Import List ZArith Sorted.
 Import ListNotations.
-From V Require Import Base.Bytes Gen.ProtoConsts C02.Model.
+From V Require Import Base.Bytes Gen.ProtoConsts Gen.C02Consts C02.Model C02.Proofs.
 Local Open Scope Z_scope.
-Example C02_placeholder : run [] = [].
-Proof. reflexivity. Qed.
-Print Assumptions C02_placeholder.
+
+(* a frame decodes (at the generated field offsets) to the same request id, call type, version and payload,
+   and leaves exactly the bytes that follow it; a whole stream of frames decodes to the list of calls *)
+Theorem C02_roundtrip : forall p rest, pkt_ok p -> decode1 (encode p ++ rest) = Some (p, rest).
+Proof. exact decode1_encode. Qed.
+Print Assumptions C02_roundtrip.
+
+Theorem C02_roundtrip_stream : forall ps, Forall pkt_ok ps -> decode_all (stream ps) = Some ps.
+Proof. exact roundtrip_stream. Qed.
+Print Assumptions C02_roundtrip_stream.
+
+(* For every interleaving of calls and iterations and every sequence of espconn_sent results, as long as no hard error
+   and no overflow has been reported: bytes on the wire ++ retry buffer ++ proto out buffer ++ frames of the queued calls
+   = frames of the accepted calls in issue order.  Nothing lost, duplicated, reordered or interleaved. *)
+Theorem C02_stream_invariant : forall evs s tr,
+  run_trace CURRENT_SILENT init evs = (s, tr) -> clean (outs_of tr) ->
+  wire_of (outs_of tr) ++ espbuf s ++ odata (ob s) ++ stream (outq s) = stream (accepted tr).
+Proof. exact C02_stream_invariant_thm. Qed.
+Print Assumptions C02_stream_invariant.
+
+(* ... hence, once the buffers are empty, the wire decodes to exactly the accepted calls: one complete frame each *)
+Theorem C02_wire_decodes : forall evs s tr, Forall ev_ok evs ->
+  run_trace CURRENT_SILENT init evs = (s, tr) -> clean (outs_of tr) ->
+  espbuf s = [] -> odata (ob s) = [] -> outq s = [] ->
+  decode_all (wire_of (outs_of tr)) = Some (accepted tr).
+Proof. exact C02_wire_decodes_thm. Qed.
+Print Assumptions C02_wire_decodes.
+
+(* request ids of accepted calls: strictly increasing and non-zero while fewer than 2^32 events have happened
+   (the 32-bit counter wraps after that); never zero at all *)
+Theorem C02_rr_ids : forall silent evs s tr, run_trace silent init evs = (s, tr) -> len evs < 4294967296 ->
+  StronglySorted Z.lt (map p_rr (accepted tr)) /\ Forall (fun p => 0 < p_rr p < 4294967296) (accepted tr).
+Proof. exact C02_rr_ids_thm. Qed.
+Print Assumptions C02_rr_ids.
+
+Theorem C02_rr_nonzero : forall silent evs s tr, run_trace silent init evs = (s, tr) ->
+  Forall (fun p => p_rr p <> 0) (accepted tr).
+Proof. exact C02_rr_nonzero_thm. Qed.
+Print Assumptions C02_rr_nonzero.
+
+(* a call is rejected (returns 0) exactly when its id is not allowed at the device's protocol version, the payload is
+   too large, or the 2-slot queue is full; otherwise it is queued behind the earlier ones *)
+Theorem C02_rejected_iff : forall s cid pl s' o, halted s = false -> step CURRENT_SILENT s (Call cid pl) = (s', o) ->
+  exists rr, o = [Ret rr] /\
+    (rr = 0 <-> (allowed cid = false \/ MAX_DATA_SIZE < len pl \/ SRPC_QUEUE <= len (outq s))) /\
+    (rr <> 0 -> outq s' = outq s ++ [{| p_rr := rr; p_call := cid; p_ver := DEVICE_PROTO_VERSION; p_data := pl |}]).
+Proof. exact C02_rejected_iff_thm. Qed.
+Print Assumptions C02_rejected_iff.
+
+(* ... and every accepted call does get sent: from any reachable, not restarted state, mu(state) iterations whose sends
+   succeed put all pending bytes on the wire, in order, and leave every buffer empty — unless the out buffer
+   overflows, which is reported by a restart *)
+Theorem C02_accepted_is_sent : forall evs s tr s' tr',
+  run_trace CURRENT_SILENT init evs = (s, tr) -> halted s = false ->
+  run_trace CURRENT_SILENT s (repeat iter_ok (Z.to_nat (mu s))) = (s', tr') ->
+  In Restart (outs_of tr') \/
+  (wire_of (outs_of tr') = espbuf s ++ odata (ob s) ++ stream (outq s) /\ espbuf s' = [] /\ odata (ob s') = [] /\ outq s' = []).
+Proof. exact C02_accepted_is_sent_thm. Qed.
+Print Assumptions C02_accepted_is_sent.
+
+(* a step that discards accepted bytes reports it: hard error seen, "Send buffer size exceeded" logged, or restart *)
+Theorem C02_overflow_reported : forall s e s' o,
+  step CURRENT_SILENT s e = (s', o) ->
+  wire_of o ++ pending s' <> pending s ++ stream (acc_of e o) ->
+  In HardErr o \/ In SendBufExceeded o \/ In Restart o.
+Proof. exact C02_overflow_reported_thm. Qed.
+Print Assumptions C02_overflow_reported.
+
+(* the restart happens only for a real overflow: exactly when the frame of the next queued call does not fit below
+   BUFFER_MAX_SIZE in the proto out buffer *)
+Theorem C02_overflow_exact : forall evs s tr rs s' o, run_trace CURRENT_SILENT init evs = (s, tr) -> halted s = false ->
+  step CURRENT_SILENT s (Iter rs) = (s', o) ->
+  (In Restart o <-> exists p q, outq s = p :: q /\ BUFFER_MAX <= len (odata (ob s)) + len (encode p)).
+Proof. exact C02_overflow_exact_thm. Qed.
+Print Assumptions C02_overflow_exact.
+
+(* with hard errors and overflows (and even for the code before the fix): what reached the wire plus what is still
+   buffered is always a sub-sequence of the frame stream — no duplication, no reordering, nothing invented *)
+Theorem C02_after_hard_error : forall silent evs s tr,
+  run_trace silent init evs = (s, tr) ->
+  Subseq (wire_of (outs_of tr) ++ espbuf s ++ odata (ob s) ++ stream (outq s)) (stream (accepted tr)).
+Proof. exact C02_after_hard_error_thm. Qed.
+Print Assumptions C02_after_hard_error.
+
+(* the buffers stay within their bounds *)
+Theorem C02_bounds : forall evs s tr, run_trace CURRENT_SILENT init evs = (s, tr) ->
+  len (outq s) <= SRPC_QUEUE /\ len (odata (ob s)) <= osize (ob s) /\ osize (ob s) < BUFFER_MAX /\
+  len (espbuf s) <= SEND_BUFFER /\ Forall (fun p => len (p_data p) <= MAX_DATA_SIZE) (outq s).
+Proof. exact C02_bounds_thm. Qed.
+Print Assumptions C02_bounds.
+
+(* the code before the fix: two accepted maximum-size calls, every send succeeds, 16 iterations: only the first
+   frame is ever sent, all buffers end up empty, and nothing is reported; with the fix the same history restarts *)
+Theorem C02_old_code_refuted :
+  (let '(s, tr) := run_trace true init witness_evs in
+     accepted tr = [witness_p1; witness_p2] /\ clean (outs_of tr) /\ ~ In OutBufOverflow (outs_of tr) /\
+     espbuf s = [] /\ odata (ob s) = [] /\ outq s = [] /\
+     wire_of (outs_of tr) = encode witness_p1) /\
+  (let '(s, tr) := run_trace false init witness_evs in
+     accepted tr = [witness_p1; witness_p2] /\ In Restart (outs_of tr) /\ In OutBufOverflow (outs_of tr)).
+Proof. exact C02_old_code_refuted_thm. Qed.
+Print Assumptions C02_old_code_refuted.
+
+(* non-vacuity: a history with a refused send, a queue-full rejection, an over-long payload and an unknown call id is
+   clean, ends with empty buffers and puts the three accepted frames on the wire; a hard error and a send-buffer
+   overflow are reachable *)
+Example C02_nonvacuous :
+  let evs := [Call 100 [1;2;3]; Call 40 []; Call 100 [9]; Iter [ESPCONN_INPROGRESS_; 0; 0]; Call 1 [7]; Call 100 (zeros 1537);
+              Call 210 [5]; Iter [ESPCONN_MAXNUM_; 0; 0]; Iter [0;0;0]; Iter [0;0;0]; Iter [0;0;0]] in
+  let '(s, tr) := run_trace CURRENT_SILENT init evs in
+  clean (outs_of tr) /\ espbuf s = [] /\ odata (ob s) = [] /\ outq s = [] /\
+  map p_rr (accepted tr) = [1; 2; 5] /\ map p_call (accepted tr) = [100; 40; 210] /\
+  filter (fun o => match o with Ret _ => true | _ => false end) (outs_of tr) = [Ret 1; Ret 2; Ret 0; Ret 0; Ret 0; Ret 5] /\
+  wire_of (outs_of tr) = stream (accepted tr) /\
+  run [Call 100 [1]; Iter [-1]] = [Ret 1; HardErr] /\
+  existsb (fun o => match o with SendBufExceeded => true | _ => false end)
+          (run [Call 100 (zeros 600); Iter [-5;-5;-5]; Iter [-5;-5;-5]]) = true.
+Proof. vm_compute. repeat split; reflexivity. Qed.
+Print Assumptions C02_nonvacuous.
+
+(* the hypotheses ev_ok / pkt_ok are satisfiable *)
+Example C02_nonvacuous_hyp :
+  Forall ev_ok [Call 100 [1;2;3]; Call 40 []; Iter [ESPCONN_INPROGRESS_; 0; 0]; Call 4294967295 [255; 0]] /\
+  pkt_ok {| p_rr := 1; p_call := 100; p_ver := DEVICE_PROTO_VERSION; p_data := [1;2;3] |}.
+Proof.
+  split.
+  - repeat constructor; try (vm_compute; intuition congruence).
+  - unfold pkt_ok. cbn [p_rr p_call p_ver p_data]. repeat split; try (vm_compute; intuition congruence).
+    repeat constructor; vm_compute; intuition congruence.
+Qed.
+Print Assumptions C02_nonvacuous_hyp.
